@@ -340,7 +340,7 @@ func c17SerCheck(c c11Case) error {
 var c17SerRun = register("C17", "deserialized", c17SerCheck)
 
 func TestC17_Deserialized(t *testing.T) {
-	mix := opMix{sets: true, delObj: true, delArr: true, setNullContainer: true}
+	mix := opMix{sets: true, delObj: true, delArr: true, setNullContainer: true, nullRoot: true}
 	runRapid(t, "C17_Deserialized", nCases(30_000, 600_000), func(t *rapid.T) {
 		h := genHistory(t, mix, 8, editProfiles)
 		c := c11Case{H: h, SerMode: rapid.IntRange(0, 3).Draw(t, "mode")}
